@@ -6,6 +6,7 @@ package main
 // `go test -overlay` (nothing is written under /repo).
 
 import (
+	"sort"
 	"bytes"
 	"context"
 	"encoding/json"
@@ -308,21 +309,34 @@ func smtRealToGo(v string) string {
 // runWitnesses replays the committed witnesses of known findings in one test binary per package.
 // Returns, per obligation name, whether its witness still fails on the current tree (defect present).
 func (P *Program) runWitnesses(entries []exceptionEntry, dir string) (map[string]bool, string) {
+	files := map[string]string{}
+	for _, e := range entries {
+		if e.Witness != "" {
+			files[e.Obligation] = e.Witness
+		}
+	}
+	return P.runGoTests(files, dir)
+}
+
+// runGoTests runs committed test bodies (paths relative to /verif) in one test binary; result: name -> failed.
+func (P *Program) runGoTests(files map[string]string, dir string) (map[string]bool, string) {
 	res := map[string]bool{}
 	var body strings.Builder
 	names := map[string]string{}
 	n := 0
-	for _, e := range entries {
-		if e.Witness == "" {
-			continue
-		}
-		data, err := os.ReadFile(filepath.Join(P.verif, e.Witness))
+	var keys []string
+	for k := range files {
+		keys = append(keys, k)
+	}
+	sort.Strings(keys)
+	for _, k := range keys {
+		data, err := os.ReadFile(filepath.Join(P.verif, files[k]))
 		if err != nil {
 			continue
 		}
 		n++
 		tn := fmt.Sprintf("TestVerifWitness%d", n)
-		names[tn] = e.Obligation
+		names[tn] = k
 		fmt.Fprintf(&body, "func %s(t *testing.T) {\n%s\n}\n\n", tn, string(data))
 	}
 	if n == 0 {
